@@ -188,6 +188,47 @@ pub fn cfg_name() -> String {
     }
 }
 
+// ---------------------------------------------------------------- time limits
+
+/// Run `f` on a thread of its own and wait at most `secs` seconds for it.  `None` means the call did not return in
+/// time (the thread is abandoned; it keeps spinning until the process exits).  A call that never returns on a valid
+/// input is data, like a panic.
+pub fn call_with_limit<T: Send + 'static>(secs: u64, f: impl FnOnce() -> T + Send + 'static) -> Option<T> {
+    let (tx, rx) = std::sync::mpsc::channel();
+    std::thread::spawn(move || {
+        let _ = tx.send(f());
+    });
+    rx.recv_timeout(std::time::Duration::from_secs(secs)).ok()
+}
+
+/// Watchdog for sequential drivers that write begin markers: `tick()` at the start of every record; if no tick
+/// arrives for `secs` seconds the process exits with status 3 (the driver attributes it to the record whose begin
+/// marker has no result).
+pub struct Watchdog {
+    last: std::sync::Arc<std::sync::atomic::AtomicU64>,
+    t0: std::time::Instant,
+}
+impl Watchdog {
+    pub fn start(secs: u64) -> Watchdog {
+        let last = std::sync::Arc::new(std::sync::atomic::AtomicU64::new(0));
+        let t0 = std::time::Instant::now();
+        let l2 = last.clone();
+        std::thread::spawn(move || loop {
+            std::thread::sleep(std::time::Duration::from_millis(500));
+            let now = t0.elapsed().as_secs();
+            let seen = l2.load(std::sync::atomic::Ordering::Relaxed);
+            if now > seen + secs {
+                eprintln!("HANG: no record finished for {} s", secs);
+                std::process::exit(3);
+            }
+        });
+        Watchdog { last, t0 }
+    }
+    pub fn tick(&self) {
+        self.last.store(self.t0.elapsed().as_secs(), std::sync::atomic::Ordering::Relaxed);
+    }
+}
+
 // ---------------------------------------------------------------- allocator
 
 thread_local! {
